@@ -72,6 +72,7 @@ class ProtocolContext:
         )
 
         self._expiry_timer: asyncio.Task[None] | None = None
+        self._send_tasks: set[asyncio.Task[None]] = set()  # writes not yet completed
         self._multiplier = 0
         self._state: _ProtocolStateT = None  # type: ignore[assignment]
 
@@ -281,6 +282,8 @@ class ProtocolContext:
         elif not isinstance(self._state, WantRply):  # IsInIdle, IsInactive
             self._cmd = self._qos = None
             self._cmd_tx_count = 0  # was: = None
+            for task in self._send_tasks:  # the caller has its answer: any write still
+                task.cancel()  # held back (write spacing, duty cycle) must not go out
 
         assert isinstance(self.is_sending, bool)  # TODO: remove
 
@@ -415,7 +418,9 @@ class ProtocolContext:
         except exc.ProtocolFsmError as err:
             self.set_state(IsInIdle, exception=err)
         else:
-            self._loop.create_task(send_fnc_wrapper(cmd))
+            task = self._loop.create_task(send_fnc_wrapper(cmd))
+            self._send_tasks.add(task)  # a write may be held back by the transport
+            task.add_done_callback(self._send_tasks.discard)
 
 
 # With wait_for_reply=False
